@@ -307,5 +307,5 @@ META = dict(
     stubs=["struct", "threading.Condition", "time", "bytes"],
     required_reach=["step", "reset-cleared", "history", "history-reset", "producer", "producer-reset", "desc", "wait-timeout",
                     "wait-hit", "threads-entry", "threads-none"],
-    limits=dict(quick=dict(), thorough=dict()),
+    limits=dict(quick=dict(), thorough=dict(crosscheck_every=2, crosscheck_max=40)),
 )
